@@ -4,6 +4,11 @@ From MW Require Import C16.Model C16.Proofs.
 Import ListNotations.
 Open Scope N_scope.
 
+(* `nodrop h`: h contains no Drop op (rpc_qdrop is outside the alphabet of C16/C17/C18; Advance and
+   Watchdog are allowed).  With Drop the "registered under its id" conjunct is FALSE for the real code and the
+   model alike: waitjobs deletes id2job[j.jobid] of a dropped job by id, which after kill + re-add under the
+   same id is the NEW job (history: A 0 0 0 -; W 1 n0; Drop n0; K 3 n0; A 0 0 0 -; L). *)
+
 (* For EVERY history h (any length, any number of jobs / connections / channels, any resolution of
    random.choice, any placement of RunLoop = any interleaving of atomic stretches) and every job
    object x accepted by the queue and not finished in the state reached by h:
@@ -12,7 +17,7 @@ Open Scope N_scope.
    never none; it is the job registered under its id in id2job; if queued, it is queued in its own
    channel with its own priority.  (A job held by a worker is therefore in no queue and with no other
    worker; it returns to a queue only through the shutdown() of that worker's connection.) *)
-Theorem C16_conservation : forall h x j,
+Theorem C16_conservation : forall h x j, nodrop h = true ->
   let s := run h init in
   getjob (s_jobs s) x = Some j -> j_done j = false ->
   (in_queues s x + with_workers s x = 1)%nat /\
@@ -22,7 +27,7 @@ Proof. exact conservation. Qed.
 Print Assumptions C16_conservation.
 
 (* Nothing that was not accepted is ever queued or handed out. *)
-Theorem C16_no_phantoms : forall h x,
+Theorem C16_no_phantoms : forall h x, nodrop h = true ->
   let s := run h init in
   getjob (s_jobs s) x = None -> (in_queues s x + with_workers s x = 0)%nat.
 Proof. exact no_phantoms. Qed.
@@ -30,17 +35,19 @@ Print Assumptions C16_no_phantoms.
 
 (* The defect of the original code, excluded: a puller that is still registered as waiter has an
    empty mailbox, so a hand-off (AsyncResult.set) never overwrites a job handed over before. *)
-Theorem C16_registered_waiter_has_empty_mailbox : forall h c chs,
+Theorem C16_registered_waiter_has_empty_mailbox : forall h c chs, nodrop h = true ->
   let s := run h init in
   In (c, chs) (s_waiters s) -> c_st (get_conn (s_conns s) c) = BPull chs None.
 Proof. exact waiters_empty_mailbox. Qed.
 Print Assumptions C16_registered_waiter_has_empty_mailbox.
 
-(* The invariant is inductive: it holds initially and every single op preserves it (this is what
-   lifts to all histories by fold_left). *)
+(* The invariant is inductive: it holds initially and every single op other than Drop preserves it (this
+   is what lifts to all histories by fold_left).  Aux = no job carries the drop flag, and only finished
+   jobs carry a dropdead deadline. *)
 Theorem C16_invariant_inductive :
-  Inv init [] [] /\ forall s o, Inv s [] [] -> Inv (fst (step s o)) [] [].
-Proof. exact (conj inv_init step_inv). Qed.
+  (Aux init /\ Inv init [] []) /\
+  forall s o, nodrop_op o = true -> Aux s /\ Inv s [] [] -> Aux (fst (step s o)) /\ Inv (fst (step s o)) [] [].
+Proof. exact (conj (conj aux_init inv_init) step_good). Qed.
 Print Assumptions C16_invariant_inductive.
 
 (* Non-vacuity: a 10-op history with 2 channels, 3 workers, a hand-off to a blocked puller chosen by
